@@ -423,7 +423,13 @@ func runC12(c *eng.Ctx) {
 		g, n := guarded(fn, eng.IsCallTo("server.consumerGroup.balanceAssignmentsForStream"), had)
 		present := eng.BoolEdges(fn, commaOk(eng.Load(subsF, nil)), true)
 		g2, n2 := guarded(fn, eng.IsCallTo("container/heap.Remove"), present)
-		c.Check(g && n == 1 && g2 && n2 == 1, "a leave touches only streams that have a heap and rebalances those the consumer held partitions of", p.Pos(fn.Pos()), "heap.Remove on ok; rebalance when cons.assignments[stream] exists", "removeConsumer's presence tests are inverted: the partitions a leaving consumer held are not redistributed")
+		// leaving the heap does not depend on having held partitions (with more subscribers than partitions a member holds none)
+		for _, rmv := range eng.CallsIn(fn, "container/heap.Remove") {
+			if gh, _ := eng.GuardedBy(fn, rmv.(ssa.Instruction), had); gh {
+				g2 = false
+			}
+		}
+		c.Check(g && n == 1 && g2 && n2 == 1, "a leave touches only streams that have a heap and rebalances those the consumer held partitions of", p.Pos(fn.Pos()), "heap.Remove on ok; rebalance when cons.assignments[stream] exists", "removeConsumer's presence tests are inverted or the heap removal depends on the consumer having held partitions: a member that leaves while holding nothing of a stream stays in its heap as a ghost and later receives partitions that no member consumes, or the partitions a leaving consumer held are not redistributed")
 	}
 	if fn := c.FnQuiet("server.(*consumerGroup).RemoveMember"); fn != nil {
 		isMember := eng.BoolEdges(fn, commaOk(eng.Load(membersF, nil)), true)
